@@ -199,6 +199,20 @@ pub fn c07(opts: &Opts) -> Report {
                         }
                     }
                 }
+                // the same pipeline as the second section of a template whose first section is its proper prefix:
+                // the kinds are those of the pipeline as written, whatever an earlier section has computed
+                if ops.len() >= 2 && i0 % 5 == 3 && (*x == "a,b" || x.starts_with("b,a")) {
+                    let pre = print_block(&ops[..ops.len() - 1]);
+                    let both = real::parse_format(&format!("{pre} {text}"), x);
+                    let alone_pre = real::parse_format(&pre, x);
+                    let want = match (&alone_pre, &t.real) { (Out::Ok(a), Out::Ok(b)) => Out::Ok(format!("{a} {b}")), (Out::Panic, _) | (_, Out::Panic) => Out::Panic, _ => Out::Err };
+                    ctx.rep.bump("after_own_prefix_section");
+                    if both != want {
+                        viol(ctx, format!("C07: {pre} {text} on {x:?} gives {} but the two sections alone give {} and {}", both.show(), alone_pre.show(), t.real.show()),
+                             vec![("template", format!("{pre} {text}")), ("input", x.to_string()), ("observed", both.show()), ("expected", want.show()), ("theorem", "C07_ill_typed_fails / C07_progress".into())]);
+                        return;
+                    }
+                }
                 if infer_none && t.real != Out::Err {
                     viol(ctx, format!("C07: ill-typed pipeline {} does not fail on {:?}: {}", text, x, t.real.show()),
                          vec![("template", text.clone()), ("input", x.to_string()), ("observed", t.real.show()), ("theorem", "C07_ill_typed_fails".into())]);
